@@ -172,6 +172,12 @@ def _gen_F_once(r, lever_world=False):
         k = int(r.integers(3, 8))
         cand = [i for i in range(5, n - 2) if i not in taken]
         idx = sorted(int(x) for x in r.choice(cand, size=k, replace=False))
+        if taken and r.random() < 0.5:
+            # an epoch shared with another sensor (position and velocity of one receiver)
+            share = sorted(taken)
+            for _j in range(int(r.integers(1, 3))):
+                idx.append(share[int(r.integers(len(share)))])
+            idx = sorted(set(idx))
         taken.update(idx)
         sd = (sig[0] if cls == 'Position' else sig[1]) * mult
         lever = None
@@ -190,6 +196,11 @@ def _gen_F_once(r, lever_world=False):
     accel = dict(bias_sd=FW._logu(r, -2, -1.2), noise=FW._logu(r, -2.5, -1.7),
                  bias_walk=None,
                  scale_misal_sd=(FW._logu(r, -3, -2) if r.random() < 0.2 else None))
+    for mdl in (gyro, accel):
+        # per-axis enable masks: a bias modelled on a subset of the axes (not a prefix)
+        if r.random() < 0.4:
+            mask = [[0, 1, 0], [0, 0, 1], [1, 0, 1], [0, 1, 1], [1, 1, 0]][int(r.integers(5))]
+            mdl['bias_sd'] = [mdl['bias_sd'] * m_ for m_ in mask]
     e = np.clip(r.standard_normal(9), -2, 2)
     knobs = dict(with_altitude=bool(lever_world or r.random() < 0.5),
                  time_step=[0.2, 0.5][int(r.integers(2))], initial_size=10000,
@@ -198,9 +209,9 @@ def _gen_F_once(r, lever_world=False):
                  init_err=[FW._f(x) for x in
                            e * np.array([sig[0]] * 3 + [sig[1]] * 3 + [sig[2]] * 2 + [sig[3]])],
                  gyro_bias=[FW._f(x) for x in np.clip(r.standard_normal(3), -2, 2) *
-                            gyro['bias_sd']],
+                            np.asarray(gyro['bias_sd'])],
                  accel_bias=[FW._f(x) for x in np.clip(r.standard_normal(3), -2, 2) *
-                             accel['bias_sd']],
+                             np.asarray(accel['bias_sd'])],
                  traj_subsample=1, increments_given=True, nominal='computed')
     if not knobs['with_altitude']:
         # a 2-D consistent (level) world: no vertical velocity in the truth or in the
@@ -475,6 +486,11 @@ def _exec_F(sc):
                      met[i + 1]['Dsd'] - SD_RATIO * met[i]['Dsd'] for i in (0, 1)) / SD_FLOOR}
     kn = sc['knobs']
     probes = {'F_worlds': 1, 'F_' + sc['regime'] + '_aiding': 1}
+    allst = [t for s_ in sc['sensors'] for t in s_['stamps']]
+    if len(allst) > len(set(allst)):
+        probes['F_epoch_shared_between_sensors'] = 1
+    if any(isinstance(kn[w]['bias_sd'], list) for w in ('gyro_model', 'accel_model')):
+        probes['F_bias_on_a_subset_of_axes'] = 1
     if sc.get('family') == 'L':
         probes = {'L_directed_lever_arm_worlds': 1}
     if FW.model_has_sm(kn['gyro_model']) or FW.model_has_sm(kn['accel_model']):
@@ -530,7 +546,8 @@ PROBES_WANTED = ['T_runs', 'T_measurements_none', 'T_measurements_empty', 'T_emp
                  'R_same_run_repeated', 'R_both_filters_share_objects',
                  'R_two_scenarios_share_models', 'F_worlds', 'F_weak_aiding',
                  'F_strong_aiding', 'F_scale_misalignment_states', 'F_two_d_mode',
-                 'L_directed_lever_arm_worlds']
+                 'L_directed_lever_arm_worlds', 'F_epoch_shared_between_sensors',
+                 'F_bias_on_a_subset_of_axes']
 
 
 def describe():
